@@ -128,10 +128,7 @@ var kinds = []string{"ok", "ok", "ok", "failparse", "failsetup", "failstartup", 
 func scenario(t *testing.T, rnd *rand.Rand, nReloads, nClients int, dropEvent bool) ([]event, []event, error) {
 	w := &world{t: t, dir: t.TempDir(), port: map[string]int{"p1": hx.FreePort(), "p2": hx.FreePort()}, p2stable: true}
 	var err error
-	w.busy, err = net.Listen("tcp", "127.0.0.1:0")
-	if err != nil {
-		return nil, nil, err
-	}
+	w.busy = hx.ListenFresh()
 	defer w.busy.Close()
 	// callback gates: inside the new instance's startup callback only the old configuration may
 	// answer; inside the old instance's shutdown callback only the new one may
